@@ -276,3 +276,34 @@ Definition ex_c_waiting : chv2 :=
 Example waits_example :
   exists c', process_presses ex_c_waiting 0 = Ok c' /\ cv_active c' = [] /\ cv_until_change c' = 47.
 Proof. eexists. split; [vm_compute; reflexivity|]. split; reflexivity. Qed.
+
+(* ---- keys that complete no chord are not swallowed ---- *)
+Lemma wdeque_extend_fits {A} cap : forall (xs l : list A),
+  (length l + length xs <= cap)%nat -> wdeque_extend cap xs l = l ++ xs.
+Proof.
+  unfold wdeque_extend. induction xs as [|x xs IH]; intros l H; cbn [fold_left]; [rewrite app_nil_r; reflexivity|].
+  cbn [length] in H. unfold wdeque_push_back at 2. destruct (Nat.ltb_spec (length l) cap) as [Hl|Hl]; [|lia].
+  cbn [fst]. rewrite IH; [rewrite <- app_assoc; reflexivity|rewrite app_length; cbn [length]; lia].
+Qed.
+
+(* the first key waiting is in no chord at all: nothing is activated, nothing leaves the queue, the ignore window starts *)
+Theorem outside_key_starts_ignore_window c layer start rest rf :
+  scan_presses (cv_queue c) [] = Ok (start :: rest, rf) ->
+  (forall ch, In ch (cv_chords c) -> mem_n start (c2_keys ch) = false) ->
+  process_presses c layer = Ok (no_chord_activations c).
+Proof.
+  intros Es Hno. unfold process_presses. rewrite Es. cbn [bind].
+  assert (E : filter (fun ch => mem_n start (c2_keys ch)) (cv_chords c) = []).
+  { induction (cv_chords c) as [|x l IH]; [reflexivity|]. cbn [filter]. rewrite (Hno x (or_introl eq_refl)).
+    apply IH. intros ch Hc. apply Hno. right. exact Hc. }
+  rewrite E. reflexivity.
+Qed.
+
+(* while the ignore window is open every queued event is handed on, in its original order, and the queue is emptied *)
+Theorem ignore_window_forwards_in_order c dq layer :
+  0 <? cv_ignore c = true -> (length dq + length (cv_queue c) <= SMOL_Q_LEN)%nat ->
+  exists c', drain_inputs c dq layer = Ok (c', dq ++ cv_queue c) /\ cv_queue c' = [] /\ cv_chords c' = cv_chords c.
+Proof.
+  intros Hi Hfit. unfold drain_inputs. rewrite Hi. rewrite (wdeque_extend_fits _ _ _ Hfit).
+  eexists. split; [reflexivity|]. split; reflexivity.
+Qed.
